@@ -5,6 +5,7 @@ O3 == <<"a", "b", "c">>
 MBoth == {"RollingInPlace", "RollingRecreate"}
 BBoth == {TRUE, FALSE}
 BNo == {FALSE}
-PAll == {"fair", "noOG", "stuck"}
+PAll == {"fair", "noOG", "zeroOG", "strOG", "stuck"}
+PThree == {"fair", "zeroOG", "stuck"}
 PFair == {"fair"}
 =============================================================================
